@@ -15,7 +15,7 @@ From Flocq Require Import Core Relative.
 From Coq Require Import Floats Uint63.
 From Flocq Require Import BinarySingleNaN.
 From Flocq Require Import IEEE754.PrimFloat.
-From NV Require Import Base PyNum Fields Encode EncodeProofs FloatRT.
+From NV Require Import Base PyNum Fields Encode SpecProofs EncodeProofs FloatRT.
 Local Open Scope R_scope.
 
 Local Notation fexp := (FLT_exp (-1074) 53).
@@ -483,4 +483,268 @@ Proof.
   apply in_range_tol_sound; assumption.
 Qed.
 
-(* in_range_exact implies in_range_tol's conclusion, so the second theorem subsumes the first *)
+(* ------------------------------------------------------------------------------------------
+   RESULT 2 — an accepted value is encoded to within half a resolution step
+   ------------------------------------------------------------------------------------------ *)
+(* Python's round(): the result is within 1/2 of the (finite) argument *)
+Lemma py_round_spec f n : py_round f = Ok n ->
+  is_finite (Prim2B f) = true /\ Rabs (B2R (Prim2B f) - IZR n) <= / 2.
+Proof.
+  unfold py_round. destruct (float_me f) as [[m e]|] eqn:Me; [|discriminate].
+  destruct (float_me_B2R f m e Me) as [V F]. intros H. split; [exact F|]. rewrite V. clear V F Me.
+  destruct (Z.leb_spec 0 e) as [He|He].
+  - inversion H; subst. rewrite mult_IZR, (IZR_Zpower radix2) by lia.
+    rewrite Rminus_diag_eq by reflexivity. rewrite Rabs_R0. lra.
+  - cbv zeta in H.
+    set (d := (2 ^ (- e))%Z) in *.
+    assert (Hd : (2 <= d)%Z).
+    { unfold d. replace (- e)%Z with (1 + (- e - 1))%Z by lia. rewrite Z.pow_add_r by lia.
+      assert (0 < 2 ^ (- e - 1))%Z by (apply Z.pow_pos_nonneg; lia). lia. }
+    assert (Hde : (d = 2 * (d / 2))%Z).
+    { unfold d. replace (- e)%Z with (1 + (- e - 1))%Z by lia. rewrite Z.pow_add_r by lia.
+      change (2 ^ 1)%Z with 2%Z. rewrite Z.mul_comm, Z.div_mul by lia. lia. }
+    assert (B : bpow radix2 e = / IZR d).
+    { assert (E1 : IZR d = bpow radix2 (- e)) by (unfold d; apply (IZR_Zpower radix2); lia).
+      rewrite E1, <- bpow_opp. f_equal. lia. }
+    rewrite B.
+    assert (Dpos : 0 < IZR d) by (apply IZR_lt; lia).
+    (* 2 |m - n d| <= d, in Z *)
+    assert (Hz : (2 * Z.abs (m - n * d) <= d)%Z).
+    { set (h := (d / 2)%Z) in *.
+      pose proof (Z.div_mod (Z.abs m) d ltac:(lia)) as DM.
+      pose proof (Z.mod_pos_bound (Z.abs m) d ltac:(lia)) as MB.
+      set (q := (Z.abs m / d)%Z) in *. set (r := (Z.abs m mod d)%Z) in *.
+      inversion H as [Hn]. clear H.
+      destruct (Z.ltb_spec m 0) as [Mn|Mp].
+      - assert (Am : Z.abs m = (- m)%Z) by lia. rewrite Am in DM.
+        destruct (Z.ltb_spec r h) as [R1|R1]; [nia|].
+        destruct (Z.ltb_spec h r) as [R2|R2]; [nia|].
+        destruct (Z.even q); nia.
+      - assert (Am : Z.abs m = m) by lia. rewrite Am in DM.
+        destruct (Z.ltb_spec r h) as [R1|R1]; [nia|].
+        destruct (Z.ltb_spec h r) as [R2|R2]; [nia|].
+        destruct (Z.even q); nia. }
+    assert (E : IZR m * / IZR d - IZR n = (IZR m - IZR n * IZR d) / IZR d) by (field; lra).
+    rewrite E. unfold Rdiv. rewrite Rabs_mult, (Rabs_pos_eq (/ IZR d))
+      by (left; apply Rinv_0_lt_compat; exact Dpos).
+    apply IZR_le in Hz. rewrite mult_IZR, abs_IZR, minus_IZR, mult_IZR in Hz.
+    apply (Rmult_le_reg_r (IZR d)); [exact Dpos|].
+    rewrite Rmult_assoc, Rinv_l, Rmult_1_r by lra. lra.
+Qed.
+
+(* a float that compares unequal to 0.0 and is finite has a non-zero value *)
+Lemma eqb_zero_false_inv r : is_finite (Prim2B r) = true -> (r =? 0)%float = false -> B2R (Prim2B r) <> 0.
+Proof.
+  intros F N. rewrite eqb_equiv in N.
+  assert (Z0 : Prim2B 0%float = B754_zero false).
+  { change 0%float with zero. rewrite zero_equiv. apply Prim2B_B2Prim. }
+  rewrite Z0 in N. rewrite Beqb_correct in N by (try exact F; reflexivity).
+  simpl B2R in N. intro E. rewrite E in N. rewrite Req_bool_true in N by reflexivity. discriminate.
+Qed.
+
+(* a finite quotient is the correctly rounded real quotient, and its dividend is finite *)
+Lemma div_finite x y :
+  B2R (Prim2B y) <> 0 -> is_finite (Prim2B (x / y)) = true ->
+  B2R (Prim2B (x / y)) = rnd (B2R (Prim2B x) / B2R (Prim2B y)) /\ is_finite (Prim2B x) = true.
+Proof.
+  intros Hy F. rewrite div_equiv in *.
+  pose proof (Bdiv_correct prec emax Flocq.IEEE754.PrimFloat.Hprec Flocq.IEEE754.PrimFloat.Hmax
+                mode_NE (Prim2B x) (Prim2B y) Hy) as C.
+  simpl round_mode in C.
+  destruct (Rlt_bool _ _) in C.
+  - destruct C as [C1 [C2 _]]. split; [exact C1 | rewrite <- C2; exact F].
+  - exfalso. rewrite <- is_finite_SF_B2SF in F. rewrite C in F. discriminate.
+Qed.
+
+(* the core: n = round(fl(V/R)) is within |R|/2 + 2^-53 |V| of V, in units of the value *)
+Lemma quotient_half_step fv r n :
+  is_finite (Prim2B r) = true -> (r =? 0)%float = false -> py_round (fv / r) = Ok n ->
+  is_finite (Prim2B fv) = true /\
+  Rabs (IZR n * B2R (Prim2B r) - B2R (Prim2B fv)) <=
+    Rabs (B2R (Prim2B r)) / 2 + bpow radix2 (-53) * Rabs (B2R (Prim2B fv)).
+Proof.
+  intros Fr Nz Rd.
+  pose proof (eqb_zero_false_inv r Fr Nz) as R0.
+  destruct (py_round_spec _ _ Rd) as [Fq Cl].
+  destruct (div_finite fv r R0 Fq) as [Eq Fv]. split; [exact Fv|].
+  rewrite Eq in Cl. clear Eq Fq Rd Nz.
+  set (V := B2R (Prim2B fv)) in *. set (Rr := B2R (Prim2B r)) in *.
+  assert (RP : 0 < Rabs Rr) by (apply Rabs_pos_lt; exact R0).
+  assert (EV : Rabs V = Rabs (V / Rr) * Rabs Rr).
+  { rewrite <- Rabs_mult. f_equal. field. exact R0. }
+  pose proof (bpow_gt_0 radix2 (-53)) as P53.
+  destruct (Rle_or_lt (bpow radix2 (-1022)) (Rabs (V / Rr))) as [Big|Small].
+  - (* normal range: one relative rounding error on the quotient *)
+    pose proof (rel_err_abs (V / Rr) (or_introl Big)) as RE.
+    set (Q := rnd (V / Rr)) in *.
+    replace (IZR n * Rr - V) with ((IZR n - Q) * Rr + (Q - V / Rr) * Rr) by (field; exact R0).
+    eapply Rle_trans; [apply Rabs_triang|]. rewrite !Rabs_mult.
+    rewrite Rabs_minus_sym in Cl.
+    assert (A1 : Rabs (IZR n - Q) * Rabs Rr <= Rabs Rr / 2) by nra.
+    assert (A2 : Rabs (Q - V / Rr) * Rabs Rr <= bpow radix2 (-53) * Rabs V).
+    { rewrite EV. rewrite <- Rmult_assoc. apply Rmult_le_compat_r; [lra | exact RE]. }
+    lra.
+  - (* quotient below 2^-1022: it rounds to at most 2^-1022, so n = 0, and |V| < 2^-1022 |R| *)
+    assert (Qs : Rabs (rnd (V / Rr)) <= bpow radix2 (-1022)).
+    { apply abs_round_le_generic; try typeclasses eauto; [apply bpow_format; lia | lra]. }
+    assert (T : bpow radix2 (-1022) <= / 4).
+    { change (/4) with (bpow radix2 (-2)). apply bpow_le. lia. }
+    assert (N0 : n = 0%Z).
+    { assert (Hlt : Rabs (IZR n) < 1).
+      { replace (IZR n) with (rnd (V / Rr) - (rnd (V / Rr) - IZR n)) by ring.
+        eapply Rle_lt_trans; [apply Rabs_triang|]. rewrite Rabs_Ropp. lra. }
+      rewrite <- abs_IZR in Hlt. apply lt_IZR in Hlt. lia. }
+    subst n. rewrite Rmult_0_l, Rminus_0_l, Rabs_Ropp.
+    pose proof (Rabs_pos V). nra.
+Qed.
+
+(* the values and resolutions covered: any float value, an int value below 2^53; any finite float
+   resolution, a non-zero int resolution below 2^53 (py_div converts ints to doubles, exactly) *)
+Definition float_finite (f : PrimFloat.float) : bool :=
+  match float_me f with Some _ => true | None => false end.
+Lemma float_finite_sound f : float_finite f = true -> is_finite (Prim2B f) = true.
+Proof.
+  unfold float_finite. destruct (float_me f) as [[m e]|] eqn:Me; [|discriminate].
+  intros _. exact (proj2 (float_me_B2R f m e Me)).
+Qed.
+Lemma res_ok_finite r : res_ok r = true -> float_finite r = true.
+Proof. unfold res_ok, float_finite. destruct (float_me r) as [[m e]|]; [reflexivity | discriminate]. Qed.
+
+Definition enc_okb (v res : pynum) : bool :=
+  (match v with PI x => (Z.abs x <? 2 ^ 53)%Z | PF _ => true end) &&
+  (match res with PI k => negb (k =? 0)%Z && (Z.abs k <? 2 ^ 53)%Z | PF r => float_finite r end).
+
+(* value / resolution, whatever the int/float typing, is one division of two doubles that carry the
+   exact values of the operands *)
+Lemma div_as_floats v res : enc_okb v res = true ->
+  exists fv fr, is_finite (Prim2B fr) = true /\ B2R (Prim2B fr) = pyR res /\ B2R (Prim2B fv) = pyR v /\
+    (py_div v res = Err EOther \/ ((fr =? 0)%float = false /\ py_div v res = Ok (PF (fv / fr)%float))).
+Proof.
+  unfold enc_okb. intros H. apply andb_true_iff in H. destruct H as [Hv Hr].
+  assert (Xv : exists fv, B2R (Prim2B fv) = pyR v /\
+                match v with PI x => Z2float x = Ok fv /\ (Z.abs x <? 2 ^ 53)%Z = true | PF f => fv = f end).
+  { destruct v as [x|f].
+    - pose proof Hv as Hv'. apply Z.ltb_lt in Hv'. destruct (Z2float_exact x Hv') as [fx [Zx [Ex _]]].
+      exists fx. split; [exact Ex|]. split; assumption.
+    - exists f. split; reflexivity. }
+  destruct Xv as [fv [Ev Sv]].
+  destruct res as [k|r].
+  - apply andb_true_iff in Hr. destruct Hr as [K0 K53].
+    apply negb_true_iff in K0. pose proof K53 as K53'. apply Z.ltb_lt in K53'.
+    destruct (Z2float_exact k K53') as [fk [Zk [Ek Fk]]].
+    assert (Nk : IZR k <> 0) by (apply not_0_IZR; apply Z.eqb_neq; exact K0).
+    exists fv, fk. split; [exact Fk|]. split; [exact Ek|]. split; [exact Ev|]. right.
+    split; [apply eqb_zero_false; [exact Fk | rewrite Ek; exact Nk]|].
+    destruct v as [x|f]; cbn [py_div]; rewrite K0.
+    + destruct Sv as [Zx X53]. rewrite X53, K53, Zx, Zk. reflexivity.
+    + subst fv. rewrite Zk. reflexivity.
+  - exists fv, r. split; [apply float_finite_sound; exact Hr|]. split; [reflexivity|]. split; [exact Ev|].
+    destruct (r =? 0)%float eqn:Z0.
+    + left. destruct v; cbn [py_div]; rewrite Z0; reflexivity.
+    + right. split; [reflexivity|].
+      destruct v as [x|f]; cbn [py_div]; rewrite Z0.
+      * destruct Sv as [Zx _]. rewrite Zx. reflexivity.
+      * subst fv. reflexivity.
+Qed.
+
+(* RESULT 2: an accepted value is encoded to the raw value n — the one the decoder's sign extension
+   reads back, never the not-available pattern — with |n*res - value| <= |res|/2 + 2^-53 |value| *)
+Theorem encode_half_step v res len signed z :
+  (1 <= len)%Z -> (signed = true -> (4 <= len)%Z) ->
+  enc_okb v res = true ->
+  encode_num v len signed res = Ok z ->
+  exists n, rounded_quotient v res = Ok n /\ sign_extend signed len z = n /\
+    not_available signed len n = false /\
+    Rabs (IZR n * pyR res - pyR v) <= Rabs (pyR res) / 2 + bpow radix2 (-53) * Rabs (pyR v).
+Proof.
+  intros Hl Hs Hok H.
+  destruct (encode_num_reads_back v len signed res z Hl Hs H) as [n [RQ [_ [SE NA]]]].
+  exists n. split; [exact RQ|]. split; [exact SE|]. split; [exact NA|].
+  destruct (div_as_floats v res Hok) as [fv [fr [Fr [Er [Ev [D|[Nz D]]]]]]];
+    unfold rounded_quotient in RQ; rewrite D in RQ; cbn [bind] in RQ; [discriminate|].
+  destruct (quotient_half_step fv fr n Fr Nz RQ) as [_ B]. rewrite Er, Ev in B. exact B.
+Qed.
+
+(* integer value and integer resolution: in integers. The quotient is computed in doubles, and a
+   quotient just below a half-integer can round up to it and then to the even neighbour; hence
+   k + 1 in general (attained, e.g., k = 2^26 + 1, v = k*k + 2^25), and k exactly when |v| < 2^52 *)
+Theorem encode_int_half_step x k len signed z :
+  (1 <= len)%Z -> (signed = true -> (4 <= len)%Z) ->
+  (1 <= k < 2 ^ 53)%Z -> (Z.abs x < 2 ^ 53)%Z ->
+  encode_num (PI x) len signed (PI k) = Ok z ->
+  exists n, rounded_quotient (PI x) (PI k) = Ok n /\ sign_extend signed len z = n /\
+    (2 * Z.abs (n * k - x) <= k + 1)%Z /\
+    ((Z.abs x < 2 ^ 52)%Z -> (2 * Z.abs (n * k - x) <= k)%Z).
+Proof.
+  intros Hl Hs Hk Hx H.
+  assert (Hok : enc_okb (PI x) (PI k) = true).
+  { unfold enc_okb. apply andb_true_iff. split; [apply Z.ltb_lt; exact Hx|].
+    apply andb_true_iff. split; [apply negb_true_iff; apply Z.eqb_neq; lia | apply Z.ltb_lt; lia]. }
+  destruct (encode_half_step _ _ _ _ _ Hl Hs Hok H) as [n [RQ [SE [_ B]]]].
+  exists n. split; [exact RQ|]. split; [exact SE|].
+  cbn [pyR] in B. rewrite <- mult_IZR, <- minus_IZR, <- !abs_IZR in B.
+  rewrite (Z.abs_eq k) in B by lia.
+  set (D := Z.abs (n * k - x)) in *.
+  assert (E53 : bpow radix2 (-53) * bpow radix2 53 = 1).
+  { rewrite <- bpow_plus. reflexivity. }
+  assert (E52 : bpow radix2 (-53) * bpow radix2 52 = / 2).
+  { rewrite <- bpow_plus. reflexivity. }
+  pose proof (bpow_gt_0 radix2 (-53)) as P.
+  split.
+  - assert (X : IZR (Z.abs x) < bpow radix2 53).
+    { change (bpow radix2 53) with (IZR (2 ^ 53)). apply IZR_lt. exact Hx. }
+    assert (L : IZR (2 * D) < IZR (k + 2)).
+    { rewrite mult_IZR, plus_IZR. nra. }
+    apply lt_IZR in L. lia.
+  - intros Hx52.
+    assert (X : IZR (Z.abs x) < bpow radix2 52).
+    { change (bpow radix2 52) with (IZR (2 ^ 52)). apply IZR_lt. exact Hx52. }
+    assert (L : IZR (2 * D) < IZR (k + 1)).
+    { rewrite mult_IZR, plus_IZR. nra. }
+    apply lt_IZR in L. lia.
+Qed.
+
+(* C09's reading "decoding it again gives the value back": for a float resolution and a field of at
+   most 53 bits, the scaled value the decoder computes from the written raw value is within
+   |r|/2 + 2^-53 |value| + 2^-53 |n*r| of the value that was encoded *)
+Lemma scaled_close n r : res_ok r = true ->
+  Rabs (scaledR n (PF r) - IZR n * B2R (Prim2B r)) <= bpow radix2 (-53) * Rabs (IZR n * B2R (Prim2B r)).
+Proof.
+  intros Hr. unfold scaledR. apply rel_err_abs.
+  destruct (Z.eq_dec n 0) as [->|Hn0]; [right; ring|left].
+  destruct (res_ok_sound r Hr) as [_ [Rlo _]].
+  assert (H1 : 1 <= Rabs (IZR n)) by (rewrite <- abs_IZR; apply IZR_le; lia).
+  assert (Hb : bpow radix2 (-1022) <= bpow radix2 (-300)) by (apply bpow_le; lia).
+  pose proof (bpow_gt_0 radix2 (-300)). rewrite Rabs_mult. nra.
+Qed.
+
+Theorem encode_then_decode_close v r len signed z :
+  (1 <= len <= 53)%Z -> (signed = true -> (4 <= len)%Z) ->
+  enc_okb v (PF r) = true -> res_ok r = true ->
+  encode_num v len signed (PF r) = Ok z ->
+  exists n w, sign_extend signed len z = n /\ not_available signed len n = false /\
+    py_mul_int n (PF r) = Ok (PF w) /\ is_finite (Prim2B w) = true /\
+    Rabs (B2R (Prim2B w) - pyR v) <=
+      Rabs (B2R (Prim2B r)) / 2 + bpow radix2 (-53) * Rabs (pyR v)
+      + bpow radix2 (-53) * Rabs (IZR n * B2R (Prim2B r)).
+Proof.
+  intros Hl Hs Hok Hr H.
+  destruct (encode_half_step v (PF r) len signed z ltac:(lia) Hs Hok H) as [n [RQ [SE [NA B]]]].
+  destruct (encode_num_inv _ _ _ _ _ H) as [q [n' [Q [Rn [In _]]]]].
+  unfold rounded_quotient in RQ. rewrite Q in RQ. cbn [bind] in RQ. rewrite Rn in RQ.
+  inversion RQ; subst n'. clear RQ Rn Q.
+  assert (Hn : (Z.abs n < 2 ^ 53)%Z).
+  { rewrite !shiftl1 in In by lia.
+    assert (P : (2 ^ len = 2 * 2 ^ (len - 1))%Z).
+    { replace len with ((len - 1) + 1)%Z at 1 by lia. rewrite Z.pow_add_r by lia. lia. }
+    assert (P1 : (0 < 2 ^ (len - 1))%Z) by (apply Z.pow_pos_nonneg; lia).
+    assert (P2 : (2 ^ len <= 2 ^ 53)%Z) by (apply Z.pow_le_mono_r; lia).
+    destruct signed; lia. }
+  destruct (scaled_facts n r Hn Hr) as [x [Zx [Fv [Ev _]]]].
+  exists n, (x * r)%float. split; [exact SE|]. split; [exact NA|].
+  split; [cbn [py_mul_int]; rewrite Zx; reflexivity|]. split; [exact Fv|].
+  rewrite Ev. pose proof (scaled_close n r Hr) as C. cbn [pyR] in B.
+  replace (scaledR n (PF r) - pyR v)
+    with ((scaledR n (PF r) - IZR n * B2R (Prim2B r)) + (IZR n * B2R (Prim2B r) - pyR v)) by ring.
+  eapply Rle_trans; [apply Rabs_triang|]. lra.
+Qed.
